@@ -128,7 +128,7 @@ SIMPLE = {
 def hist_assumptions(prop):
     return [
         "g++ 12 / libstdc++ 12, -std=gnu++17 -O1 with ASan+UBSan, assertions enabled (no NDEBUG)",
-        "the reference model (std::vector<int>) and the instrumented element / allocator / iterator types are correct; they are self-checked against std::vector as subject",
+        "the reference model (std::vector<int>) and the instrumented element / allocator / iterator types are correct (every alarm on the unchanged tree was adjudicated by hand, DESIGN.md §10, and the checks were exercised against independently written seeded changes, §9)",
         "held on the generated cases only: this is search, not proof",
     ]
 
